@@ -59,14 +59,14 @@ var properties = map[string]Prop{
 		Parts:       []Part{{Harness: "c03"}},
 		Level:       "model_checking",
 		QuickBudget: 200, ThoroughBudget: 1800,
-		Rule:        "delay-bounded DFS over send/receive-level schedules of the real actor.System for target state{running, being killed (immediate/poison/slow subtree), failed+Stop/GracefulStop/Restart/GracefulRestart/Resume, terminated, terminated+name reused, never existed, zombie, system stopped, stashing} x reference provenance{ActorOf warm/cold cache, Clone, ParseRef, FindActor} x sender{outside goroutine, sibling actor}, three numbered messages racing the transition; oracle = conservation (processed xor stashed xor dead-lettered exactly once, by the addressee only, no mailbox holding mail at quiescence); distinct_nontrivial = distinct fate vectors per scenario",
+		Rule:        "delay-bounded DFS over send/receive-level schedules of the real actor.System for target state{running, being killed (immediate/poison/slow subtree), failed+Stop/GracefulStop/Restart/GracefulRestart/Resume, terminated, terminated+name reused, never existed, zombie, system stopped, stashing} x reference provenance{ActorOf warm/cold cache, Clone, ParseRef, FindActor} x sender{outside goroutine, sibling actor}, three numbered messages racing the transition; oracle = conservation (processed xor stashed xor dead-lettered exactly once, by the addressee only, no mailbox holding mail at quiescence); distinct_nontrivial = distinct fate vectors per scenario; added: the three messages travelling through a sibling's Scheduler.Once, stash followed by un-stash, a self-send from the actor's own OnKilled handler, escalation to the system strategy",
 		Assumptions: append([]string{coarseAssumption}, schedAssumptions...),
 	},
 	"C16": {
 		Parts:       []Part{{Harness: "c16"}},
 		Level:       "exploration",
 		QuickBudget: 120, ThoroughBudget: 1200,
-		Rule:        "all version vectors over ids {a,b,c} with per-id entry in {absent, explicit 0, 1, 2, Max} (quick; + Max-1 thorough) plus the zero-value struct: every pair (Compare vs pointwise reference, converse, Merge = pointwise max, commutative, idempotent, upper bound, operands unchanged), every single (Increment strictly After / overflow error, Clone isolation, Write/Read round trip consuming all bytes), every triple (transitivity, Equal is a congruence, Merge associative and least upper bound), and all operation sequences of depth 3 (4) over {Increment, Merge, Clone, Compact, Prune} from non-initial states against a dense reference model; a case is non-trivial when the operands differ / the sequence has at least one operation",
+		Rule:        "all version vectors over ids {a,b,c} with per-id entry in {absent, explicit 0, 1, 2, Max} (quick; + Max-1 thorough) plus the zero-value struct: every pair (Compare vs pointwise reference, converse, Merge = pointwise max, commutative, idempotent, upper bound, operands unchanged), every single (Increment strictly After / overflow error, Clone isolation, Write/Read round trip consuming all bytes), every triple (transitivity, Equal is a congruence, Merge associative and least upper bound), and all operation sequences of depth 3 (4) over {Increment, Merge, Clone, Compact, Prune} from non-initial states against a dense reference model; a case is non-trivial when the operands differ / the sequence has at least one operation; the wire round trip runs through fresh / pooled / caller-supplied writers under both byte orders, the decoded-from bytes are overwritten afterwards and the re-encoding is compared byte for byte",
 		Assumptions: []string{"node ids are drawn from {a,b,c}; counters from the stated alphabet: laws about other ids/values are not covered", "the reference model is the dense function id -> counter with absent == 0"},
 	},
 	"C17": {
@@ -94,11 +94,12 @@ var properties = map[string]Prop{
 		Parts:       []Part{{Harness: "c19es"}, {Harness: "c19sys"}},
 		Level:       "model_checking",
 		QuickBudget: 200, ThoroughBudget: 1800,
-		Rule:        "(a) the real event stream of a started System: 2-3 threads of Subscribe / Unsubscribe / UnsubscribeAll / Publish calls over 2 subscribers and 2 event types (subscribers are references with a recording mailbox), every interleaving at sync granularity up to the delay bound, race detector on; oracle = brute-force linearizability against set semantics, exactly-once, both tables agree and are clean; (b) subscriber actors in a running System: per-publisher order, double subscription, unsubscribe, termination (also zombie, own ActorKilledEvent, events published in reaction to the termination), restart; every schedule up to the delay bound with switch points at messages and sends; distinct_nontrivial = distinct delivery logs per scenario",
+		Rule:        "(a) the real event stream of a started System: 2-3 threads of Subscribe / Unsubscribe / UnsubscribeAll / Publish calls over 2 subscribers and 2 event types (subscribers are references with a recording mailbox), every interleaving at sync granularity up to the delay bound, race detector on; oracle = brute-force linearizability against set semantics, exactly-once, both tables agree and are clean; (b) subscriber actors in a running System: per-publisher order, double subscription, unsubscribe, termination (also zombie, own ActorKilledEvent, events published in reaction to the termination), restart; every schedule up to the delay bound with switch points at messages and sends; distinct_nontrivial = distinct delivery logs per scenario; added: overlapping publications of two types with overlapping multi-subscriber sets, fan-out to 1-130 subscribers, refused duplicate spawn, subscriptions taken in OnPrelaunch (window none / self / concurrent publisher; across a restart; refused or failed namesake)",
 		Assumptions: schedAssumptions,
 	},
 	"C20": {
-		Parts:       []Part{{Harness: "c20"}},
+		// the two-system harness contributes its Once scenarios: a receiver on another system (also one with the owner's own path)
+		Parts:       []Part{{Harness: "c20"}, {Harness: "c15", Args: []string{"-only", "once"}}},
 		Level:       "model_checking",
 		QuickBudget: 200, ThoroughBudget: 1800,
 		Rule:        "106 operation scripts (1-4 operations over Once/Loop/Cron(valid,invalid)/Cancel(known,unknown)/Clear/kill owner/fail-and-restart owner/kill receiver; delays 0-3 s so that instants collide; 1-3 jobs; the same reference on two actors; receiver self/other) issued by the owning actor inside handlers at chosen virtual instants incl. exactly at, just before and after firing instants; every schedule up to the delay bound with switch points at messages/sends plus timer deviations at tie instants; oracle = reference timetable (count, not-before-instant, nothing after cancel/clear/owner death/restart, no dead letter for dead jobs, parse error, not-found); distinct_nontrivial = distinct delivery timetables per scenario",
@@ -143,14 +144,14 @@ var properties = map[string]Prop{
 		Parts:       []Part{{Harness: "c15"}},
 		Level:       "model_checking",
 		QuickBudget: 250, ThoroughBudget: 2400,
-		Rule:        "12 operations taking an ActorRef {Tell, Ask+Reply, Kill, poison Kill, Watch then target dies, Watch+Unwatch then target dies, Ping, PipeTo success, PipeTo failure (timeout), PipeTo with a forwarder on the other system, Scheduler.Once, Scheduler.Loop} x target {local, on another System over the in-memory network} x {user Codec with a message type outside the registry, no codec with a registered type}; plus two watchers with the same path on the two systems (watch / one unwatches) and eight operations repeated right after a message legitimately rejected by its writer; each of the 70 scenarios over all schedules up to the delay bound with switch points at messages, sends and network operations; oracle: the same expected observable effect for the local and the remote variant (delivery, reply, termination + OnKill.Killer, OnKilled naming the target with its address, Pong, PipeResult at the forwarder, scheduled deliveries) and no decode/send failure event; distinct_nontrivial = distinct effect vectors per scenario",
+		Rule:        "12 operations taking an ActorRef {Tell, Ask+Reply, Kill, poison Kill, Watch then target dies, Watch+Unwatch then target dies, Ping, PipeTo success, PipeTo failure (timeout), PipeTo with a forwarder on the other system, Scheduler.Once, Scheduler.Loop} x target {local, on another System over the in-memory network} x {user Codec with a message type outside the registry, no codec with a registered type}; plus two watchers with the same path on the two systems (watch / one unwatches) and eight operations repeated right after a message legitimately rejected by its writer; each of the 70 scenarios over all schedules up to the delay bound with switch points at messages, sends and network operations; oracle: the same expected observable effect for the local and the remote variant (delivery, reply, termination + OnKill.Killer, OnKilled naming the target with its address, Pong, PipeResult at the forwarder, scheduled deliveries) and no decode/send failure event; distinct_nontrivial = distinct effect vectors per scenario; added: every operation again after a rejected message, after an undecodable one, against a re-used name, and after the peer was unreachable beyond the retry window (issued 300 ms before it is back)",
 		Assumptions: append([]string{"event-stream subscriptions are local by design and not part of the matrix", coarseAssumption}, schedAssumptions...),
 	},
 	"C18": {
 		Parts:       []Part{{Harness: "c18"}},
 		Level:       "model_checking",
 		QuickBudget: 250, ThoroughBudget: 2400,
-		Rule:        "n = 2-3 (4 thorough) real Systems with clustering enabled over the in-memory network on virtual time, real gossip / join / failure-detection code and wire codec: seed layouts {one seed, two seeds}, start offsets {0, 0.3 s, 0.7 s} in several orders, FailureDetectionTimeout {4 s, default 40 s, off}, SuspectConfirmDuration {0, 2 s}; a late self-seeded island; fault phase: crash (isolation) of a non-seed node, restart with the same NodeID on the same / on a new address, restart with a fresh NodeID, partition and heal of a pair, each at three instants; healing phase of max(20 gossip rounds, 5 x timeout) of virtual time; oracle at the horizon: no view lists a node that is not running (dead-member-removed), and among the running nodes: equal member sets and incarnations, same computed leader, exactly one self-declared leader, every running node listed, no membership/leader event in the last third of the healing phase; executions are deterministic runs of the whole protocol stack (default fair schedule per scenario; deviations in thorough); distinct_nontrivial = distinct final view vectors",
+		Rule:        "n = 2-3 (4 thorough) real Systems with clustering enabled over the in-memory network on virtual time, real gossip / join / failure-detection code and wire codec: seed layouts {one seed, two seeds}, start offsets {0, 0.3 s, 0.7 s} in several orders, FailureDetectionTimeout {4 s, default 40 s, off}, SuspectConfirmDuration {0, 2 s}; a late self-seeded island; fault phase: crash (isolation) of a non-seed node, restart with the same NodeID on the same / on a new address, restart with a fresh NodeID, partition and heal of a pair, each at three instants; healing phase of max(20 gossip rounds, 5 x timeout) of virtual time; oracle at the horizon: no view lists a node that is not running (dead-member-removed), and among the running nodes: equal member sets and incarnations, same computed leader, exactly one self-declared leader, every running node listed, no membership/leader event in the last third of the healing phase; executions are deterministic runs of the whole protocol stack (default fair schedule per scenario; deviations in thorough); distinct_nontrivial = distinct final view vectors; added: graceful Leave of a seed / non-seed / still-joining node whose system keeps running (Leave must return), seeds that come up late, views sampled every 250 ms after a death (a dropped dead member must not be listed again)",
 		Assumptions: append([]string{"reconnect limit 1 with 100-200 ms back-off (instead of 10 attempts up to 10 s) so that Tell to a dead node does not stall the cluster actor for minutes of virtual time", "cluster sizes 5-7 and message loss inside a TCP stream are not covered", coarseAssumption}, schedAssumptions...),
 	},
 	"C05": {
@@ -164,7 +165,7 @@ var properties = map[string]Prop{
 		Parts:       []Part{{Harness: "c01"}},
 		Level:       "model_checking",
 		QuickBudget: 120, ThoroughBudget: 1200,
-		Rule:        "stateless DFS over all schedules of each scenario (2-4 threads sending user/system mail, calling Pause/Resume; handler reactions) up to the preemption bound; an execution is one trace of the real mailbox; distinct_nontrivial counts distinct (scenario, final handled-sequence) outcomes",
+		Rule:        "stateless DFS over all schedules of each scenario (2-4 threads sending user/system mail, calling Pause/Resume; handler reactions) up to the preemption bound; an execution is one trace of the real mailbox; distinct_nontrivial counts distinct (scenario, final handled-sequence) outcomes; the pair PuR|PuR is explored one bound deeper (3) in the quick tier",
 		Assumptions: schedAssumptions,
 	},
 }
